@@ -97,6 +97,16 @@ def drvStep (s : DrvState) (line : String) : DrvState × String :=
       | some a => match cstep params s.cq a with
         | some (q, o) => ({ s with cq := q }, uShow q o)
         | none => (s, "fault")
+  | "tr" :: fn :: args =>
+    -- the translated source (Gen/C12.lean `Tr`, int = 64 bits) evaluated on the given arguments
+    match args.mapM Fatchoy.Drv.int? with
+    | some a => (match Gen.C12.Tr.eval fn a with | some o => (s, o) | none => (s, "bad-op"))
+    | none => (s, "bad-op")
+  | "tr32" :: fn :: args =>
+    -- … and `Tr32` (int = 32 bits, the GOARCH=386 leg)
+    match args.mapM Fatchoy.Drv.int? with
+    | some a => (match Gen.C12.Tr32.eval fn a with | some o => (s, o) | none => (s, "bad-op"))
+    | none => (s, "bad-op")
   | _ => (s, "bad-op")
 
 def drvMain : IO Unit := Fatchoy.Drv.run ({} : DrvState) drvStep
